@@ -307,3 +307,46 @@ Definition sget (a : spec) (id : N) : out :=
   | Some d => RBytes d
   | None => RErr E_NOTFOUND
   end.
+
+(* ---------------------------------------------------------------- schedules
+   With chunk_lock every store_chunk / finish-publish / delete_artifact / per-chunk gc test /
+   full_gc / repair is one atomic step, so a concurrent execution of several clients is the
+   sequential run of an interleaving of their programs (a streamed or one-shot write being the
+   sequence of its per-chunk writes).  `interleave` merges per-thread programs along a schedule
+   (a list of thread indices; exhausted or unknown threads are skipped). *)
+Fixpoint take_nth {A} (n : nat) (l : list (list A)) : option (A * list (list A)) :=
+  match l, n with
+  | [], _ => None
+  | [] :: t, O => None
+  | (x :: r) :: t, O => Some (x, r :: t)
+  | h :: t, S n' => match take_nth n' t with Some (x, t') => Some (x, h :: t') | None => None end
+  end.
+Fixpoint interleave (threads : list (list op)) (sched : list nat) : list op :=
+  match sched with
+  | [] => []
+  | i :: r => match take_nth i threads with
+              | Some (o, threads') => o :: interleave threads' r
+              | None => interleave threads r
+              end
+  end.
+
+(* The code BEFORE the repair, for one chunk key: store_chunk was `exists?` followed by
+   `put(refs := 1)` or by get / put(refs + 1), each a separate store operation.  Micro-steps of
+   client t: RSee (look the key up and remember the record), RAct (act on what was remembered). *)
+Inductive rstep := RSee (t : N) | RAct (t : N).
+(* state: the key's stored count (None = absent), what each client remembered, holders so far *)
+Definition rstate := (option N * list (N * option N) * N)%type.
+Definition rrun1 (s : rstate) (x : rstep) : rstate :=
+  let '(rec, mem_, holders) := s in
+  match x with
+  | RSee t => (rec, aset mem_ t rec, holders)
+  | RAct t => match aget mem_ t with
+              | Some None => (Some 1, mem_, holders + 1)            (* saw no record: creates it with 1 *)
+              | Some (Some r) => (Some (r + 1), mem_, holders + 1)   (* writes back remembered + 1 *)
+              | None => s
+              end
+  end.
+Definition rrun (xs : list rstep) : rstate := fold_left rrun1 xs (None, [], 0).
+
+(* an injective stand-in for the digest, used only by the Examples of Props.v *)
+Definition toy_hash (d : list N) : N := fold_left (fun a x => a * 256 + x + 1) d 0.
